@@ -44,17 +44,12 @@ extern void mpt_queue_align(MPT_STRUCT(queue) *queue, size_t pos)
 		return;
 	}
 	
-	/* split block into upper and lower part */
-	mpt_memrev(addr+queue->off, pv = pos-queue->off, queue->len);
-	
-	/* move lower part to buffer data start */
-	if (queue->off)
-		(void) memmove(addr, addr+queue->off, pv);
-	
-	pos = queue->max - (queue->len - pv);
-	
-	if (pos != (queue->off + pv))
-		(void) memmove(addr+pos, addr+queue->off+pv, queue->len-pv);
+	/* move data to buffer start, rotate storage to wrap at position */
+	if (queue->off) {
+		(void) memmove(addr, addr+queue->off, queue->len);
+	}
+	mpt_memrev(addr, queue->max - pos, queue->max);
+	queue->off = pos;
 	
 	return;
 }
